@@ -421,6 +421,7 @@ def run(ctx, rep):
         clause_binding_agreement(prog, rep)
         clause_imeta_verbatim(prog, rep)
         clause_epoch_hint_key(prog, rep)
+        K.clause_swapped_args(prog, rep, "aead-siblings", lambda fl: "encrypted_media" in fl or "media_processing" in fl, 8)
     clause_hash_check(prog, rep)
     clause_group_image(prog, rep)
     # C17.4 shares C02's clause
